@@ -8,7 +8,7 @@ HERE = os.path.dirname(os.path.abspath(__file__))
 
 def cfg(name, comment, **kw):
     d = dict(UnitSeq="U3", GroupNames='{"g1"}', MaxGroups=1, MaxRecs=3, MaxCount=3, MCountMin=1, EpVals="EpNone",
-             ChainCanonical="FALSE", TenantMode='"forall"', ExportMode='"none"', SampleMod=1, SampleRes=0, NearMod=1)
+             ChainCanonical="FALSE", TenantMode='"forall"', ExportMode='"none"', SampleMod=1, SampleRes=0, NearMod=1, SliceMod=1, SliceRes=0)
     d.update(kw)
     if d["TenantMode"] == '"forall"':
         inv = "ForAllManifests"
@@ -47,8 +47,8 @@ cfg("MC_t_u2r4c4.cfg", "thorough: 2 classes x <=4 records x counts 1..4", UnitSe
 cfg("MC_t_u3r4c2.cfg", "thorough: 3 classes x <=4 records x counts 1..2", MaxRecs=4, MaxCount=2)
 cfg("MC_t_u3r4c4.cfg", "thorough: 3 classes x <=4 records x counts 1..4; chain side up to renaming of the classes "
     "(canonical first-use order), manifest side everything", MaxRecs=4, MaxCount=4, ChainCanonical="TRUE")
-cfg("MC_t_ep.cfg", "thorough: 2 classes x <=3 records x counts 1..2 x endpoints {0,1}^2",
-    UnitSeq="U2", MaxRecs=3, MaxCount=2, EpVals="EpBin", ExportMode='"focus"', SampleMod=99991, NearMod=97)
+cfg("MC_t_ep.cfg", "thorough: 2 classes x <=3 records x counts 1..2 x endpoints {00,10,01}",
+    UnitSeq="U2", MaxRecs=3, MaxCount=2, EpVals="EpGrp", ExportMode='"focus"', SampleMod=99991, NearMod=29)
 cfg("MC_t_grp2.cfg", "thorough: <=2 groups over 2 names, 2 classes, <=2 records/group, counts 1..2",
     UnitSeq="U2", GroupNames='{"g1","g2"}', MaxGroups=2, MaxRecs=2, MaxCount=2, ExportMode='"focus"', SampleMod=9973)
 cfg("MC_t_grp3.cfg", "thorough: <=3 groups over 3 names, 2 classes, <=1 record/group, counts 1..2, endpoints {00,10,01}",
